@@ -17,7 +17,14 @@
      return num_removed
 
    The store is the list [odb.all()] of object ids (names are what gc decides on);
-   the directory objects readable from cache_odb are an association list. *)
+   the directory objects readable from cache_odb are an association list.
+
+   [used] is Iterable[HashInfo] in the source and walked ONCE; the model takes it as a list.
+   That the container kind (list/tuple/set/frozenset/generator/iter/map) makes no difference
+   is part of the correspondence (harness: used_kind; for sets the observed iteration order
+   is the list) and of the theorems (C06_used_set, C06_ok_used_set: members only).
+   The store has no size bound and no paging in the model (C06_store_app); the harness runs
+   stores beyond fs.LIST_OBJECT_PAGE_SIZE because an implementation could page its scan. *)
 From Coq Require Import NArith List Bool.
 From DvcData Require Import Base.Val.
 Import ListNotations.
@@ -87,6 +94,19 @@ Definition gc (i : gc_in) : gc_out :=
       let kept := filter (fun o => mem o u) (g_store i) in
       GcOk (N.of_nat (length unused)) (if g_dry i then g_store i else kept)
   end.
+
+(* literal helper for the harness (large stores): the 32-character lower-case hex name of a
+   128-bit number, so that [oid_hex32 0x0016fe09...] can stand for the list of its 32 code
+   points (a list literal of 32 numbers parses ~2.5x slower).  Checked by
+   GcProofs.oid_hex32_example; a wrong helper would also break the correspondence since the
+   used ids and the small objects are always given as plain lists. *)
+Definition hexdigit (d : N) : N := if d <? 10 then 48 + d else 87 + d.
+Fixpoint hex_of (k : nat) (n : N) (acc : list N) : list N :=
+  match k with
+  | O => acc
+  | S k' => hex_of k' (N.shiftr n 4) (hexdigit (N.land n 15) :: acc)
+  end.
+Definition oid_hex32 (n : N) : oid := hex_of 32 n [].
 
 Definition enc_gc_out (o : gc_out) : val :=
   match o with
